@@ -143,7 +143,7 @@ pub fn run(ctx: &RunCtx) -> i32 {
             level: "fault_enumeration",
             rule: format!("{} seeds (reference-encoded single / pair messages over the menus x tails, RFC 5769 vectors, unknown-attribute messages); every single fault of the alphabet {{bit flip, byte := 00/FF/7F/80, truncation to every length, 8 header-length edits, 7 edits of every attribute and nested length, 8 UTF-8 / quoting injections at every offset of every string value, delete / duplicate / move of every attribute}} at every position{}; each mutant decoded under 16 option combinations + no context (size relation and independence of trailing bytes checked on success), passed to get_input_text x3, and (when the 20 header bytes or the length changed; the reassembler reads nothing else) to the reassembler under every 1-cut (<=40 bytes: 2-cut) chunking x 2 buffers against the reference splitter; valid header + every 1-byte and {} 2-byte bodies; client part: see coverage.client. Non-trivial = distinct byte strings that at least one configuration decoded successfully and that satisfied the relations (plus distinct chunkings whose per-call results matched the splitter)", n_seeds, if thorough { " and all pairs of byte substitutions on seeds <=64 bytes" } else { "" }, if thorough { "every" } else { "4096" }),
             assumptions: vec!["the statement's 'random bytes' are replaced by these deterministic families".into()],
-            required_symbols: vec!["bit-flip", "byte-substitution", "truncation", "header-length", "attribute-length", "nested-length", "string-injection", "attribute-delete", "attribute-duplicate", "attribute-move", "tiny-bodies"],
+            required_symbols: vec!["bit-flip", "byte-substitution", "truncation", "header-length", "attribute-length", "nested-length", "string-injection", "attribute-delete", "attribute-duplicate", "attribute-move", "tiny-bodies", "client-deliveries", "long-term/retry-after-401-cookie", "short-term/learned-SHA256"],
             min_outcomes: 2,
             exhaustive: true,
             bounds: json!({"seeds": n_seeds, "faults_per_mutant": if thorough {2} else {1}}),
